@@ -109,8 +109,47 @@ func genRetentionHistory(r *rand.Rand) *plan.Plan {
 		}
 		inc.Ops = append(inc.Ops, plan.Op{Kind: "ingest", Index: names[0], Events: []json.RawMessage{json.RawMessage(fmt.Sprintf(`{"vid":"r%d","timestamp":%d,"seg":-1,"idx":%q,"n":%d}`, n, now-ago, names[0], n))}}, plan.Op{Kind: "flush"})
 	}
+	// metrics segments of one shard (they share one tags tree directory), rotated in seeded order of age:
+	// late-arriving old datapoints may be rotated after a segment that holds recent ones
+	nm := 0
+	if r.IntN(2) == 0 {
+		nm = 2 + r.IntN(3)
+	}
+	p.Params["metric_segments"] = nm
+	for s := 0; s < nm; s++ {
+		var newestAgo int64
+		switch r.IntN(3) {
+		case 0:
+			newestAgo = int64(H)*hourMs + int64(5+r.IntN(300))*60_000
+		case 1:
+			newestAgo = int64(r.IntN(50)+1) * 60_000
+		default:
+			newestAgo = int64(H)*hourMs - int64(5+r.IntN(50))*60_000
+			if newestAgo < 60_000 {
+				newestAgo = 60_000
+			}
+		}
+		var dps []json.RawMessage
+		for h := 0; h < 2; h++ {
+			for j := 0; j < 1+r.IntN(3); j++ {
+				// distinct seconds per (segment, series, j): a point is attributable to its segment
+				ts := (now-newestAgo)/1000 - int64(j*120+s*7+h)
+				dps = append(dps, json.RawMessage(fmt.Sprintf(`{"metric":"retm","tags":{"host":"h%d"},"timestamp":%d,"value":%d}`, h, ts, s*100+j)))
+			}
+		}
+		inc.Ops = append(inc.Ops, plan.Op{Kind: "mput", Events: dps}, plan.Op{Kind: "mrotate"})
+	}
+	if nm > 0 {
+		// rotated metrics data becomes searchable with the next flush of the tags tree (a 60 s timer)
+		inc.Ops = append(inc.Ops, plan.Op{Kind: "advance", DurMs: 65_000})
+	}
 	queries := func() []plan.Op {
 		var ops []plan.Op
+		if nm > 0 {
+			for h := 0; h < 2; h++ {
+				ops = append(ops, plan.Op{Kind: "mquery", Text: fmt.Sprintf(`retm{host="h%d"}`, h), Start: (now - int64(H+12)*hourMs) / 1000, End: (now + hourMs) / 1000, Step: 1})
+			}
+		}
 		for _, ix := range names {
 			ops = append(ops, plan.Op{Kind: "query", Index: ix, Text: "*", Start: 1, End: qEnd, Size: 2000, Args: map[string]any{"includeNulls": true}},
 				plan.Op{Kind: "query", Index: ix, Text: "* | stats count", Start: 1, End: qEnd})
@@ -139,6 +178,14 @@ func retentionOracle(prop string, res *RunResult) []Violation {
 		flushed int
 		deleted bool
 	}
+	type mseg struct {
+		pts     map[string][]int64 // host -> timestamps (s)
+		newest  int64
+		rotated bool
+		deleted bool
+	}
+	var msegs []*mseg
+	var mopen *mseg
 	var segs []*seg
 	open := map[string]*seg{}
 	byVID := map[string]*Event{}
@@ -200,6 +247,75 @@ func retentionOracle(prop string, res *RunResult) []Violation {
 						s.newest = ev.TS
 					}
 				}
+			case "mput":
+				if mopen == nil {
+					mopen = &mseg{pts: map[string][]int64{}}
+					msegs = append(msegs, mopen)
+				}
+				for _, raw := range op.Events {
+					var d struct {
+						Tags map[string]string `json:"tags"`
+						T    int64             `json:"timestamp"`
+					}
+					_ = json.Unmarshal(raw, &d)
+					mopen.pts[d.Tags["host"]] = append(mopen.pts[d.Tags["host"]], d.T)
+					if d.T > mopen.newest {
+						mopen.newest = d.T
+					}
+				}
+				rej := 0
+				var de struct {
+					Errors []string `json:"errors"`
+				}
+				_ = json.Unmarshal(e.Data, &de)
+				for _, x := range de.Errors {
+					if x != "" {
+						rej++
+					}
+				}
+				if rej > 0 {
+					vs = append(vs, Violation{Sig: prop + ":valid-datapoint-rejected", Msg: fmt.Sprintf("%s: %d datapoints rejected: %s", where, rej, trimTo(string(e.Data), 300))})
+				}
+			case "mrotate":
+				if mopen != nil {
+					mopen.rotated = true
+					mopen = nil
+				}
+			case "mquery":
+				if !passDone {
+					continue
+				}
+				if e.Err != "" {
+					vs = append(vs, Violation{Sig: prop + ":metrics-query-error-after-pass", Msg: where + ": " + op.Text + ": " + e.Err})
+					continue
+				}
+				q, err := decodeMQ(e)
+				if err != nil {
+					continue
+				}
+				host := "h0"
+				if strings.Contains(op.Text, `"h1"`) {
+					host = "h1"
+				}
+				got := map[int64]bool{}
+				for name, pts := range q.Series {
+					if !strings.HasPrefix(name, "retm{") {
+						continue
+					}
+					for _, pt := range pts {
+						got[int64(pt.T)] = true
+					}
+				}
+				for _, ms := range msegs {
+					for _, t := range ms.pts[host] {
+						switch {
+						case ms.deleted && got[t]:
+							vs = append(vs, Violation{Sig: prop + ":expired-metrics-segment-still-searchable", Msg: fmt.Sprintf("%s: retm{host=%s}@%d belongs to a rotated metrics segment whose newest datapoint (%d) is older than the horizon %d", where, host, t, ms.newest, horizon/1000)})
+						case !ms.deleted && !got[t]:
+							vs = append(vs, Violation{Sig: prop + ":unexpired-metrics-data-deleted", Msg: fmt.Sprintf("%s: retm{host=%s}@%d is gone although its segment holds a datapoint (%d) newer than the horizon %d (or is still open)", where, host, t, ms.newest, horizon/1000)})
+						}
+					}
+				}
 			case "flush":
 				for _, sg := range open {
 					sg.flushed = len(sg.evs)
@@ -216,6 +332,11 @@ func retentionOracle(prop string, res *RunResult) []Violation {
 				for _, sg := range segs {
 					if sg.rotated && sg.newest <= horizon {
 						sg.deleted = true
+					}
+				}
+				for _, ms := range msegs {
+					if ms.rotated && ms.newest*1000 <= horizon {
+						ms.deleted = true
 					}
 				}
 			case "query":
